@@ -39,7 +39,11 @@ func deltaURL(j int) string {
 
 // Ops of a history.
 var opNames = []string{"fetch", "publish", "put-fresh", "put-older", "put-base-expired", "put-delta-expired", "put-no-nextupdate",
-	"arm-get", "arm-set", "arm-base", "arm-delta0", "arm-delta1", "arm-delta2"}
+	"arm-get", "arm-set", "arm-base", "arm-delta0", "arm-delta1", "arm-delta2",
+	// the issuer publishes a newer base while the delta locations keep serving
+	// the delta of the previous version (whose number is then below the base's):
+	// the fetcher's business is to fetch it, judging the pair is the validator's
+	"publish-base-only"}
 
 var faultKinds = []string{"error", "404", "garbage", "non-crl-der"}
 
@@ -207,6 +211,7 @@ type entry struct {
 type model struct {
 	c                  *Case
 	version            int
+	dlag               int // versions the delta locations lag behind the base
 	cache              *entry
 	getFault, setFault bool
 	baseFault          bool
@@ -254,7 +259,7 @@ func (m *model) fetch() prediction {
 				m.deltaFault[k] = false
 				continue
 			}
-			delta, found = v+1, true
+			delta, found = v-int64(10*m.dlag)+1, true
 			break
 		}
 		if !found {
@@ -283,6 +288,7 @@ type world struct {
 	cache      *sims.Cache
 	fetcher    *crl.HTTPFetcher
 	version    int
+	dlag       int
 	baseFault  string
 	deltaFault [3]string
 }
@@ -304,7 +310,7 @@ func newWorld(c *Case) *world {
 				w.deltaFault[j] = ""
 				return faultReply(f)
 			}
-			der, _ := crlFor(c.Shape, "delta", w.version, "fresh")
+			der, _ := crlFor(c.Shape, "delta", w.version-w.dlag, "fresh")
 			return netsim.Reply{Body: der, Class: "delta"}
 		})
 	}
@@ -378,6 +384,12 @@ func step(w *world, m *model, idx, op int) (string, string) {
 	case "publish":
 		w.version++
 		m.version++
+		w.dlag, m.dlag = 0, 0
+	case "publish-base-only":
+		w.version++
+		m.version++
+		w.dlag++
+		m.dlag++
 	case "put-fresh":
 		put(w.version, "fresh", "fresh")
 	case "put-older":
